@@ -34,7 +34,7 @@ theorem compile_correct_partial (routes errs : List Route) (hasErrs : Bool) (req
   simp only [treeOk, Bool.and_eq_true] at h
   unfold serve eval
   rw [rs_ok routes true emptyK _ [] h.1 (fun _ => noErr_emptyK)]
-  cases hp : specRoutes routes { req with groups := [], ctxErr := none } [] with
+  cases hp : specRoutes routes { req with groups := [], ctxErr := none, replStatus := none } [] with
   | cont r t => simp [Res.bind, emptyK]
   | stop o =>
     cases o with
@@ -43,7 +43,7 @@ theorem compile_correct_partial (routes errs : List Route) (hasErrs : Bool) (req
       simp only [Res.bind]
       split
       · rw [rs_ok errs true errorEmptyK _ t h.2 (fun _ => noErr_errorEmptyK)]
-        cases specRoutes errs { r' with path := req.path, ctxErr := some st } t with
+        cases specRoutes errs (withError st { r' with path := req.path }) t with
         | cont r'' t2 => simp [Res.bind, errorEmptyK]
         | stop o2 => cases o2 <;> simp [Res.bind]
       · rfl
@@ -68,7 +68,7 @@ theorem routes_in_order (rs₁ rs₂ : List Route) (k : K) :
   | cons rt rs ih => simp [runRoutes, ih]
 
 example : runRoutes ([.mk 0 [] [.pass 1] false] ++ [.mk 0 [] [.pass 2] false]) emptyK wReq []
-    = .done [⟨1, 1, none⟩, ⟨2, 1, none⟩] none := by decide
+    = .done [⟨1, 1, none, none⟩, ⟨2, 1, none, none⟩] none := by decide
 
 /-- **a route applies iff it has no matcher sets or at least one set all of whose matchers
     match** — whenever matching does not end in a matcher error. -/
@@ -150,9 +150,9 @@ theorem groups_only_grow (rs : List Route) (r r' : Req) (t t' : Trace)
   rw [hc] at this
   exact this
 
-example : specRoute (.mk 2 [] [.pass 1] false) wReq [] = .cont { wReq with groups := [2] } [⟨1, 1, none⟩] := by decide
+example : specRoute (.mk 2 [] [.pass 1] false) wReq [] = .cont { wReq with groups := [2] } [⟨1, 1, none, none⟩] := by decide
 example : runRoutes [.mk 2 [] [.pass 1] false, .mk 2 [] [.pass 2] false, .mk 0 [] [.pass 3] false] emptyK wReq []
-    = .done [⟨1, 1, none⟩, ⟨3, 1, none⟩] none := by decide
+    = .done [⟨1, 1, none, none⟩, ⟨3, 1, none, none⟩] none := by decide
 
 /-- **a terminal route ends routing**: once an applicable terminal route is entered, neither the
     routes after it nor the rest of any enclosing chain can run — the outcome does not depend on
@@ -163,7 +163,7 @@ theorem terminal_stops (g : Nat) (sets : List (List Matcher)) (hs : List Handler
   simp [runRoutes, runRoute, h, hg]
 
 example : runRoutes [.mk 0 [] [.pass 1] true, .mk 0 [] [.pass 2] false] emptyK wReq []
-    = .done [⟨1, 1, none⟩] none := by decide
+    = .done [⟨1, 1, none, none⟩] none := by decide
 
 /-- **handlers chain in listed order** (1): the chain of `hs₁ ++ hs₂` is the chain of `hs₁` whose
     next handler is the chain of `hs₂`. -/
@@ -181,7 +181,7 @@ theorem passing_handlers_run_in_listed_order (ids : List Nat) (k : K) (r : Req) 
   | cons i is ih => simp [runHandlers, runHandler, ih]
 
 example : runHandlers [.pass 1, .rewrite 2 3, .pass 3, .respond 4 201, .pass 5] emptyK wReq []
-    = .done [⟨1, 1, none⟩, ⟨2, 1, none⟩, ⟨3, 3, none⟩, ⟨4, 3, none⟩] (some 201) := by decide
+    = .done [⟨1, 1, none, none⟩, ⟨2, 1, none, none⟩, ⟨3, 3, none, none⟩, ⟨4, 3, none, none⟩] (some 201) := by decide
 
 /-- **nested subroutes follow the same rules** (1): a subroute without error routes IS its route
     list, evaluated by the same function in the same chain. -/
@@ -204,17 +204,17 @@ theorem subroute_wrap_invariant (rs errs : List Route) (hasErrs : Bool) (req : R
 
 example : serve [.mk 0 [] [.sub [.mk 1 [[.atom .path [1]]] [.rewrite 1 3, .fail 2 404] true] false []] false]
       true [.mk 0 [[.atom .path [1]]] [.pass 3] false] wReq
-    = ⟨[⟨1, 1, none⟩, ⟨2, 3, none⟩, ⟨3, 1, some 404⟩], some 404⟩ := by decide
+    = ⟨[⟨1, 1, none, none⟩, ⟨2, 3, none, none⟩, ⟨3, 1, some 404, some 404⟩], some 404⟩ := by decide
 
 /-- (3): a subroute WITH error routes: if its chain fails, the error routes are evaluated by the
     same function, on the request as it is at that moment plus the error — the URI is NOT
     restored here (see `Witness.subroute_error_routes_see_rewritten_uri`). -/
 theorem subroute_error_routes_same_rules (rs es : List Route) (k : K) (r r' : Req) (t t' : Trace) (st : Nat)
     (h : runRoutes rs k r t = .err t' st r') :
-    runHandler (.sub rs true es) k r t = runRoutes es k { r' with ctxErr := some st } t' := by
+    runHandler (.sub rs true es) k r t = runRoutes es k (withError st r') t' := by
   simp [runHandler, h]
 
-example : runRoutes [.mk 0 [] [.fail 2 500] false] emptyK wReq [] = .err [⟨2, 1, none⟩] 500 wReq := by decide
+example : runRoutes [.mk 0 [] [.fail 2 500] false] emptyK wReq [] = .err [⟨2, 1, none, none⟩] 500 wReq := by decide
 
 /-- **a matcher error diverts**: the route's handlers do not run, nothing after it runs; the error
     surfaces exactly like a handler error. -/
@@ -231,9 +231,9 @@ example : anyMatch [[.atom .host [1]], [.atom .path [1], .err 1 403]] wReq = .er
     context; a second failure, or error routes that do not answer, yield the first error's status. -/
 theorem error_diverts_with_original_uri (routes errs : List Route) (req r' : Req) (t : Trace) (st : Nat)
     (hne : errs ≠ [])
-    (h : runRoutes routes emptyK { req with groups := [], ctxErr := none } [] = .err t st r') :
+    (h : runRoutes routes emptyK { req with groups := [], ctxErr := none, replStatus := none } [] = .err t st r') :
     serve routes true errs req =
-      match runRoutes errs errorEmptyK { r' with path := req.path, ctxErr := some st } t with
+      match runRoutes errs errorEmptyK (withError st { r' with path := req.path }) t with
       | .done t2 s2 => ⟨t2, s2⟩
       | .err t2 _ _ => ⟨t2, some (writeStatus (some st))⟩ := by
   have : errs.isEmpty = false := by cases errs <;> simp_all
@@ -244,20 +244,20 @@ theorem error_diverts_with_original_uri (routes errs : List Route) (req r' : Req
 /-- in particular a handler in the error routes sees the original path and the error, whatever
     the primary chain rewrote; and if the error routes do not answer, the error's status is sent. -/
 theorem error_route_sees_original_uri_and_error (routes : List Route) (req r' : Req) (t : Trace) (st i : Nat)
-    (h : runRoutes routes emptyK { req with groups := [], ctxErr := none } [] = .err t st r') :
+    (h : runRoutes routes emptyK { req with groups := [], ctxErr := none, replStatus := none } [] = .err t st r') :
     serve routes true [.mk 0 [] [.pass i] false] req =
-      ⟨t ++ [⟨i, req.path, some st⟩], some (writeStatus (some st))⟩ := by
+      ⟨t ++ [⟨i, req.path, some st, if st = 0 then r'.replStatus else some st⟩], some (writeStatus (some st))⟩ := by
   rw [error_diverts_with_original_uri routes _ req r' t st (by simp) h]
-  simp [runRoutes, runRoute, anyMatch, groupDone, markGroup, runHandlers, runHandler, errorEmptyK, ev]
+  simp [runRoutes, runRoute, anyMatch, groupDone, markGroup, runHandlers, runHandler, errorEmptyK, ev, withError]
 
 example : runRoutes [.mk 0 [] [.rewrite 1 3, .fail 2 404] false] emptyK wReq []
-    = .err [⟨1, 1, none⟩, ⟨2, 3, none⟩] 404 { wReq with path := 3 } := by decide
+    = .err [⟨1, 1, none, none⟩, ⟨2, 3, none, none⟩] 404 { wReq with path := 3 } := by decide
 example : serve [.mk 0 [] [.rewrite 1 3, .fail 2 404] false] true [.mk 0 [] [.pass 7] false] wReq
-    = ⟨[⟨1, 1, none⟩, ⟨2, 3, none⟩, ⟨7, 1, some 404⟩], some 404⟩ := by decide
+    = ⟨[⟨1, 1, none, none⟩, ⟨2, 3, none, none⟩, ⟨7, 1, some 404, some 404⟩], some 404⟩ := by decide
 
 /-- without error routes the error's status is the response -/
 theorem error_without_error_routes (routes : List Route) (req r' : Req) (t : Trace) (st : Nat)
-    (h : runRoutes routes emptyK { req with groups := [], ctxErr := none } [] = .err t st r') :
+    (h : runRoutes routes emptyK { req with groups := [], ctxErr := none, replStatus := none } [] = .err t st r') :
     serve routes false [] req = ⟨t, some (writeStatus (some st))⟩ := by
   simp [serve, h]
 
@@ -267,23 +267,23 @@ example : serve [.mk 0 [[.legacy true, .err 2 0]] [.pass 1] false] false [] wReq
     chain stays satisfied in the error chain — an error route of that group is skipped. -/
 theorem groups_persist_into_error_chain (routes : List Route) (req r' : Req) (t : Trace) (st g : Nat)
     (sets : List (List Matcher)) (hs : List Handler) (term : Bool)
-    (h : runRoutes routes emptyK { req with groups := [], ctxErr := none } [] = .err t st r')
+    (h : runRoutes routes emptyK { req with groups := [], ctxErr := none, replStatus := none } [] = .err t st r')
     (hg : g ≠ 0) (hm : g ∈ r'.groups)
-    (ha : anyMatch sets { r' with path := req.path, ctxErr := some st } = .ok true) :
+    (ha : anyMatch sets (withError st { r' with path := req.path }) = .ok true) :
     serve routes true [.mk g sets hs term] req = ⟨t, some (writeStatus (some st))⟩ := by
   rw [error_diverts_with_original_uri routes _ req r' t st (by simp) h]
   simp only [runRoutes]
-  rw [first_of_group_only g sets hs term errorEmptyK _ t hg (by simpa using hm) ha]
-  simp [errorEmptyK]
+  rw [first_of_group_only g sets hs term errorEmptyK _ t hg (by simpa [withError] using hm) ha]
+  simp [errorEmptyK, withError]
 
 example : serve [.mk 1 [] [.fail 1 404] false] true [.mk 1 [] [.respond 2 200] false] wReq
-    = ⟨[⟨1, 1, none⟩], some 404⟩ := by decide
+    = ⟨[⟨1, 1, none, none⟩], some 404⟩ := by decide
 
 /-- **a request no route answers gets the empty default response**: if no route applies, no
     handler runs and nothing is written. -/
 theorem unanswered_gets_empty_default (routes errs : List Route) (hasErrs : Bool) (req : Req)
     (h : ∀ g sets hs term, Route.mk g sets hs term ∈ routes →
-      anyMatch sets { req with groups := [], ctxErr := none } = .ok false) :
+      anyMatch sets { req with groups := [], ctxErr := none, replStatus := none } = .ok false) :
     serve routes hasErrs errs req = ⟨[], none⟩ := by
   have key : ∀ (rs : List Route) (r : Req) (t : Trace),
       (∀ g sets hs term, Route.mk g sets hs term ∈ rs → anyMatch sets r = .ok false) →
@@ -303,13 +303,13 @@ theorem unanswered_gets_empty_default (routes errs : List Route) (hasErrs : Bool
     all routes, the response is empty, whatever handlers ran on the way. -/
 theorem passed_through_gets_empty_default (routes errs : List Route) (hasErrs : Bool) (req r : Req) (t : Trace)
     (hok : treeOk routes errs = true)
-    (h : specRoutes routes { req with groups := [], ctxErr := none } [] = .cont r t) :
+    (h : specRoutes routes { req with groups := [], ctxErr := none, replStatus := none } [] = .cont r t) :
     serve routes hasErrs errs req = ⟨t, none⟩ := by
   rw [compile_correct_partial routes errs hasErrs req hok]
   simp [eval, h]
 
 example : specRoutes [.mk 0 [] [.pass 1, .rewrite 2 3] false, .mk 0 [[.atom .path [1]]] [.respond 3 200] true]
-    wReq [] = .cont { wReq with path := 3 } [⟨1, 1, none⟩, ⟨2, 1, none⟩] := by decide
+    wReq [] = .cont { wReq with path := 3 } [⟨1, 1, none, none⟩, ⟨2, 1, none, none⟩] := by decide
 
 example : serve [.mk 0 [[.atom .host [1]]] [.respond 1 200] true, .mk 0 [[.atom .method [1]]] [.pass 2] false] false [] wReq
     = ⟨[], none⟩ := by decide
@@ -327,5 +327,65 @@ example : ∀ m ∈ [Matcher.atom .host [0], .not [[.atom .path [2]]]], ∀ st, 
   intro m hm st
   simp at hm
   rcases hm with rfl | rfl <;> exact evalMatcher_noerr _ _ (by decide) st
+
+/-! ## the error path as deployed: `http.error.*` placeholders, `error`, `static_response` -/
+
+/-- **what the error routes are told about the error is the error**: every handler that ever runs —
+    primary chain, subroutes, subroute error routes, server error routes, after any number of
+    errors — sees a `{http.error.status_code}` placeholder equal to the status of the
+    `HandlerError` in its request context.  (For an error that is not a `HandlerError` the
+    placeholder is stale: `Witness.status_placeholder_stale_after_plain_error`.) -/
+theorem status_placeholder_tracks_handler_errors (routes errs : List Route) (hasErrs : Bool) (req : Req) :
+    ∀ e ∈ (serve routes hasErrs errs req).trace, ∀ st, e.err = some st → st ≠ 0 → e.repl = some st := by
+  have h0 : Req.PlaceholderOk { req with groups := [], ctxErr := none, replStatus := none } := by
+    intro st h; cases h
+  have h1 := runRoutes_pok routes emptyK kOk_emptyK _ [] h0 (by simp)
+  unfold serve
+  cases hp : runRoutes routes emptyK { req with groups := [], ctxErr := none, replStatus := none } [] with
+  | done t s => rw [hp] at h1; exact h1
+  | err t st r' =>
+    rw [hp] at h1
+    simp only
+    split
+    · have h2 := runRoutes_pok errs errorEmptyK kOk_errorEmptyK _ t (withError_ok st { r' with path := req.path }) h1
+      cases he : runRoutes errs errorEmptyK (withError st { r' with path := req.path }) t with
+      | done t2 s2 => rw [he] at h2; exact h2
+      | err t2 st2 r2 => rw [he] at h2; exact h2
+    · exact h1
+
+example : serve [.mk 0 [] [.sub [.mk 0 [] [.fail 1 404] false] true [.mk 0 [] [.pass 2, .raise (.lit 503)] false]] false]
+      true [.mk 0 [] [.pass 3] false] wReq
+    = ⟨[⟨1, 1, none, none⟩, ⟨2, 1, some 404, some 404⟩, ⟨3, 1, some 503, some 503⟩], some 503⟩ := by decide
+
+/-- an error route that answers with `"{http.error.status_code}"` (the usual `respond
+    "{err.status_code}"`) sends the status of the error being handled … -/
+theorem respond_with_error_placeholder_sends_error_status (k : K) (r : Req) (t : Trace) (st : Nat)
+    (hr : ∀ s, r.ctxErr = some s → s ≠ 0 → r.replStatus = some s) (he : r.ctxErr = some st) (hne : st ≠ 0) :
+    runHandler (.answer .errCode) k r t = .done t (some st) ∧
+    runHandler (.answer .empty) k r t = .done t (some st) ∧
+    runHandler (.raise .errCode) k r t = .err t st r := by
+  have := hr st he hne
+  refine ⟨?_, ?_, ?_⟩
+  · simp [runHandler, Src.resolve, this]
+  · simp [runHandler, answerDefault, he, hne]
+  · simp [runHandler, raiseStatus, Src.resolve, this]
+
+/-- … and outside the error path (no error yet) that same configuration is itself an error 500:
+    the unset placeholder expands to the empty string, which is not a number. -/
+theorem error_placeholder_outside_error_path (k : K) (r : Req) (t : Trace) (h : r.replStatus = none) :
+    runHandler (.answer .errCode) k r t = .err t 500 r ∧
+    runHandler (.raise .errCode) k r t = .err t 500 r := by
+  simp [runHandler, raiseStatus, Src.resolve, h]
+
+/-- the real `error` handler diverts exactly like a failing handler (it just leaves no probe event) -/
+theorem error_handler_diverts (n : Nat) (k : K) (r : Req) (t : Trace) :
+    runHandler (.raise (.lit n)) k r t = .err t n r ∧ runHandler (.raise .empty) k r t = .err t 500 r ∧
+    runHandler (.raise .bad) k r t = .err t 500 r := by
+  simp [runHandler, raiseStatus, Src.resolve]
+
+example : serve [.mk 0 [] [.raise (.lit 404)] false] true [.mk 0 [] [.pass 1, .answer .errCode] false] wReq
+    = ⟨[⟨1, 1, some 404, some 404⟩], some 404⟩ := by decide
+example : serve [.mk 0 [] [.answer .errCode] false] true [.mk 0 [] [.pass 1, .answer .empty] false] wReq
+    = ⟨[⟨1, 1, some 500, some 500⟩], some 500⟩ := by decide
 
 end CaddyModel.C05
